@@ -119,6 +119,69 @@ pub fn c_insert(len: usize, index: usize) -> bool {
   }
 }
 
+/// a relocated list built without the allocator: `old` (len 1, cap 1) forwards to `new` (len n, cap 3), exactly the
+/// state List::grow leaves behind (write_len(new) + mark_moved(cap))
+pub fn mk_forwarded(n: usize) -> (List, List) {
+  use laythe_core::managed::AllocateObj;
+  let new = mk_free(n, 3);
+  let vals = [num(9)];
+  let r = VecBuilder::new(&vals[..1], 1).alloc();
+  std::mem::forget(r.handle);
+  let mut raw = r.reference;
+  unsafe { raw.write_len(new); }
+  raw.mark_moved(1);
+  (List::new(raw), new)
+}
+
+fn still_forwards(old: List, new: List) -> bool {
+  old.has_moved() && !new.has_moved() && matches!(old.state(), laythe_core::object::ListLocation::Forwarded(l) if l == new)
+}
+
+/// C10: every operation through a stale (forwarding) handle acts on the relocated list and leaves the forwarding intact
+pub fn c_stale_pop(len: usize) -> bool {
+  let n = len % 3;
+  let (mut old, new) = mk_forwarded(n);
+  let r = old.pop();
+  still_forwards(old, new) && old.len() == new.len()
+    && if n == 0 { r.is_none() && new.len() == 0 } else { r.map_or(false, |v| is(v, n - 1)) && new.len() == n - 1 && (n < 2 || is(new[0], 0)) }
+}
+
+pub fn c_stale_index_set(len: usize, index: usize) -> bool {
+  let n = 1 + len % 3; let idx = index % n;
+  let (mut old, new) = mk_forwarded(n);
+  old[idx] = num(7);
+  still_forwards(old, new) && new.len() == n && old.len() == n
+    && (0..n).all(|i| if i == idx { is(new[i], 7) && is(old[i], 7) } else { is(new[i], i) })
+}
+
+pub fn c_stale_insert(len: usize, index: usize) -> bool {
+  let hooks = GcHooks::new(&NO_GROW);
+  let n = len % 3; let idx = index % 4;
+  let (mut old, new) = mk_forwarded(n);
+  let r = old.insert(idx, num(7), &hooks);
+  still_forwards(old, new) && old.len() == new.len()
+    && if idx > n { matches!(r, IndexedResult::OutOfBounds) && new.len() == n && (0..n).all(|i| is(new[i], i)) }
+       else { matches!(r, IndexedResult::Ok(())) && new.len() == n + 1
+              && (0..n + 1).all(|i| if i < idx { is(new[i], i) } else if i == idx { is(new[i], 7) } else { is(new[i], i - 1) }) }
+}
+
+pub fn c_stale_remove(len: usize, index: usize) -> bool {
+  let n = (len % 4).min(3); let idx = index % 5;
+  let (mut old, new) = mk_forwarded(n);
+  let r = old.remove(idx);
+  still_forwards(old, new) && old.len() == new.len()
+    && if idx >= n { matches!(r, IndexedResult::OutOfBounds) && new.len() == n && (0..n).all(|i| is(new[i], i)) }
+       else { matches!(r, IndexedResult::Ok(v) if is(v, idx)) && new.len() == n - 1 && (0..n - 1).all(|i| is(new[i], if i < idx { i } else { i + 1 })) }
+}
+
+pub fn c_stale_push_no_growth(len: usize) -> bool {
+  let hooks = GcHooks::new(&NO_GROW);
+  let n = len % 3;
+  let (mut old, new) = mk_forwarded(n);
+  old.push(num(7), &hooks);
+  still_forwards(old, new) && new.len() == n + 1 && old.len() == n + 1 && is(new[n], 7) && (0..n).all(|i| is(new[i], i))
+}
+
 #[cfg(kani)]
 mod proofs {
   use super::*;
@@ -151,4 +214,14 @@ mod proofs {
   fn o11_remove() { assert!(c_remove(kani::any(), kani::any())); }
   #[kani::proof] #[kani::unwind(6)] #[kani::stub(<ObjectHandle as std::ops::Drop>::drop, drop_stub)]
   fn o11_insert() { assert!(c_insert(kani::any(), kani::any())); }
+  #[kani::proof] #[kani::unwind(6)] #[kani::stub(<ObjectHandle as std::ops::Drop>::drop, drop_stub)]
+  fn o10_stale_pop() { assert!(c_stale_pop(kani::any())); }
+  #[kani::proof] #[kani::unwind(6)] #[kani::stub(<ObjectHandle as std::ops::Drop>::drop, drop_stub)]
+  fn o10_stale_index_set() { assert!(c_stale_index_set(kani::any(), kani::any())); }
+  #[kani::proof] #[kani::unwind(6)] #[kani::stub(<ObjectHandle as std::ops::Drop>::drop, drop_stub)]
+  fn o10_stale_insert() { assert!(c_stale_insert(kani::any(), kani::any())); }
+  #[kani::proof] #[kani::unwind(6)] #[kani::stub(<ObjectHandle as std::ops::Drop>::drop, drop_stub)]
+  fn o10_stale_remove() { assert!(c_stale_remove(kani::any(), kani::any())); }
+  #[kani::proof] #[kani::unwind(6)] #[kani::stub(<ObjectHandle as std::ops::Drop>::drop, drop_stub)]
+  fn o10_stale_push() { assert!(c_stale_push_no_growth(kani::any())); }
 }
